@@ -139,12 +139,20 @@ func init() {
 	// ---- sync ----------------------------------------------------------
 	lock := func(mode string) modelFn {
 		return func(x *Exec, st *State, fr *Frame, fn *ssa.Function, args []Value, pos token.Pos) []Outcome {
-			st.held[x.lockKey(args[0])] = mode
+			k := x.lockKey(args[0])
+			st.held[k] = mode
+			if p := args[0]; p.K == KPtr && p.B == BObj && len(p.Path) == 1 {
+				if st.heldRef == nil {
+					st.heldRef = map[string]string{}
+				}
+				st.heldRef[k] = p.Ref
+			}
 			return single(st)
 		}
 	}
 	unlock := func(x *Exec, st *State, fr *Frame, fn *ssa.Function, args []Value, pos token.Pos) []Outcome {
 		delete(st.held, x.lockKey(args[0]))
+		delete(st.heldRef, x.lockKey(args[0]))
 		return single(st)
 	}
 	models["(*sync.Mutex).Lock"] = lock("w")
